@@ -5,7 +5,7 @@ cd /verif
 for d in $(ls -d mutants/variants/R* | sort -V); do
   git -C /repo apply "$PWD/$d/patch.diff" || { echo "$d: patch does not apply"; continue; }
   out=$(${BIN:-./bin/gopkicheck} -prop ALL 2>&1)
-  git -C /repo checkout -- .
+  git -C /repo apply -R "$PWD/$d/patch.diff" 2>/dev/null || git -C /repo checkout -- .
   echo "$(basename $d): $(echo "$out" | grep -E '^(VIOLATION|UNDECIDED) [A-Z]' | awk '{print $1" "$2}' | tr '\n' ';') $(echo "$out" | grep 'ALL quick')"
 done
 [ -n "$(git -C /repo status --porcelain)" ] && echo "WARNING /repo left dirty"
